@@ -258,7 +258,7 @@ func normURL(u string) string {
 
 // ------------------------------------------------------------------------------------------ C05
 
-var c05signers = []string{sIssuer, sDelegated, sDelegatedNoE, sClientCert, sStrangerEmb, sStrangerBare, sSibling}
+var c05signers = []string{sIssuer, sDelegated, sDelegatedNoE, sClientCert, sStrangerEmb, sStrangerBare, sSibling, sLookalike, sLookalikeBare}
 var c05respStatus = []ocsp.ResponseStatus{ocsp.Malformed, ocsp.InternalError, ocsp.TryLater, ocsp.SignatureRequired, ocsp.Unauthorized}
 
 func runC05(h *Harness) {
@@ -393,7 +393,7 @@ func runC14(h *Harness) {
 	sc := h.R.Scenario
 	def := Pick(tp, "", "40s", "2m")
 	defD, _ := time.ParseDuration(def)
-	nu := Pick(tp, time.Duration(0), time.Duration(0), -time.Hour, 3*time.Minute, 20*time.Minute)
+	nu := Pick(tp, time.Duration(0), time.Duration(0), -time.Hour, 3*time.Minute, 20*time.Minute, -5*time.Minute, -14*time.Minute, -30*time.Second)
 	strict := tp.Chance(3, 4)
 	twin := tp.Chance(1, 3)
 	twoNodes := tp.Chance(1, 4)
